@@ -280,7 +280,10 @@ func WriteFailure(f Failure) string {
 // Fail records a violation and fails the test.
 func Fail(t TB, f Failure) {
 	WriteFailure(f)
-	t.Fatalf("[%s/%s] %s (sig %s)", f.Property, f.Part, f.Message, f.Signature)
+	// rapid only shrinks failures whose error text is identical on re-execution, so the
+	// fatal text is the (deterministic) signature; the full message is logged and saved.
+	t.Logf("[%s/%s] %s", f.Property, f.Part, f.Message)
+	t.Fatalf("[%s/%s] violation signature %s", f.Property, f.Part, f.Signature)
 }
 
 func oneLine(s string) string {
